@@ -154,7 +154,7 @@ var checks = []Check{
 	},
 	{
 		ID: "C02", Pkg: "checks/c02", Instr: coreInstr,
-		QuickRuns: 256, ThoroughRuns: 1000000, QuickBudgetS: 60, ThoroughBudgetS: 1500, ShrinkS: 60,
+		QuickRuns: 256, ThoroughRuns: 1000000, QuickBudgetS: 150, ThoroughBudgetS: 1500, ShrinkS: 60,
 		Rule: "one run = one shipped spec/Go pair (drawn) whose real generated archetypes run in the spec world with small drawn constants under a seeded schedule and seeded resolution of every either/with and environment choice; the full spec state (pc, stack, every archetype local under its PlusCal-translation name, every global) is recorded after every committed step; TLC evaluates the spec's own Init on the first state and Next (or stuttering) on every consecutive pair (batches of 16 (quick) or 100 (thorough) traces, one TLC start per system and constant assignment; the quick tier draws constants from a small set per system, the thorough tier from the full ranges; for load_balancer and proxy, whose checked-in TLA+ translation is stale with respect to the PlusCal algorithm PGo generated with the Go code, the scratch copy is re-translated with the PlusCal translator first); non-trivial = at least 3 validated steps; distinct = distinct interleaving digests; counters spec_steps_<system> give the validated steps per pair",
 		Real: append([]string{"the specification's next-state relation: the .tla file read from /repo at check time, evaluated by TLC (tla2tools.jar)"}, realA...), Stub: stubA,
 		Assumptions: []string{"TLC is the reference evaluator of the spec's Next; values are printed by an independent TLA+ printer (verif/tlc.Render)", "pairs not wired yet are listed in DESIGN.md; only wired pairs are claimed"},
